@@ -82,7 +82,7 @@ class Generator:
 
     @staticmethod
     def _generate(context, template, op_file):
-        with open(op_file, 'a', encoding='utf-8') as op, open(template, 'r', encoding='utf-8') as inp:
+        with open(op_file, 'w', encoding='utf-8') as op, open(template, 'r', encoding='utf-8') as inp:
             code_as_string = chevron.render(inp.read(), context, partials_path=str(TEMPLATES_PATH))
             op.write(code_as_string)
             print(f'Generated: {op_file}')
